@@ -11,7 +11,7 @@ import verif as V
 
 XADD_TIERS = {
     "quick": dict(runs=30000, chunk=250, secs=240, recheck=200, miri_seeds=16),
-    "thorough": dict(runs=3000000, chunk=2000, secs=600, recheck=5000, miri_seeds=512),
+    "thorough": dict(runs=3000000, chunk=500, secs=600, recheck=5000, miri_seeds=512),
 }
 
 MIRI_DIR = os.path.join(V.ROOT, "sim", "xaddmiri")
@@ -63,26 +63,32 @@ def miri_pass(seed, nseeds, timeout):
         return dict(ran=False, seeds=0, failures=[], wall_s=time.time() - t0, skipped_reason="miri pass exceeded its %ds budget" % timeout)
     out = r.stdout
     failures = []
-    if r.returncode != 0:
-        # keep the interesting lines: our own MIRI-VIOLATION lines, UB reports, failing seed numbers
-        keep = [l for l in out.splitlines() if "MIRI-VIOLATION" in l or "Undefined Behavior" in l or "Data race" in l or "data race" in l or "failing seed" in l.lower() or "Trying seed" in l and "failed" in l.lower()]
-        failures.append(dict(returncode=r.returncode, lines=keep[:20], tail=out[-1500:]))
     ok_lines = [l for l in out.splitlines() if l.startswith("MIRI-OK")]
+    if r.returncode != 0:
+        # a verdict needs Miri (or the program under it) to say what is wrong: a lost update, undefined
+        # behaviour or a data race. Any other non-zero exit (a build problem, an internal error of the
+        # tool, a killed process) only means that the pass did not run.
+        keep = [l for l in out.splitlines() if "MIRI-VIOLATION" in l or "Undefined Behavior" in l or "Data race" in l or "data race" in l]
+        if not keep:
+            return dict(ran=False, seeds=0, failures=[], wall_s=time.time() - t0, skipped_reason="cargo miri run exited with %s without reporting a violation: %s" % (r.returncode, out[-300:].replace("\n", " | ")))
+        keep += [l for l in out.splitlines() if "failing seed" in l.lower()]
+        failures.append(dict(returncode=r.returncode, lines=keep[:20], tail=out[-1500:]))
     return dict(ran=True, seeds=nseeds, seed_range=[lo, hi], failures=failures, ok_lines=len(ok_lines), wall_s=time.time() - t0, skipped_reason=None)
 
 
 def check(tier, seed, runs, workers, secs):
-    t_start = time.time()
+    t_total = time.time()
     cfg = dict(XADD_TIERS[tier])
     if runs:
         cfg["runs"] = runs
     if secs:
         cfg["secs"] = secs
     build_s = V.build(["xaddsim"])
-    binary = os.path.join(V.BIN, "xaddsim")
+    t_start = time.time()  # the time budget is for simulating, not for compiling
     work = os.path.join(V.TARGET, "work", "C18-%d" % os.getpid())
     shutil.rmtree(work, ignore_errors=True)
     os.makedirs(work)
+    binary = V.private_copy(os.path.join(V.BIN, "xaddsim"), work)
     os.makedirs(V.REPLAYS, exist_ok=True)
     os.makedirs(V.EVIDENCE, exist_ok=True)
 
@@ -152,7 +158,7 @@ def check(tier, seed, runs, workers, secs):
     mt.join()
 
     known = V.load_known()
-    unlisted, known_hits = [], {}
+    unlisted, known_hits, unconfirmed = [], {}, []
     by_class = {}
     for v in sorted(violations, key=lambda v: int(v["run_index"])):
         if "violation" in v:
@@ -163,6 +169,18 @@ def check(tier, seed, runs, workers, secs):
             json.dump(v, f, indent=1)
         r = subprocess.run([binary, "replay", path], stdout=subprocess.PIPE, stderr=subprocess.STDOUT, text=True)
         reproduced = r.returncode == 1 and "REPRODUCED EXACTLY" in r.stdout
+        if r.returncode != 1:
+            out = os.path.join(work, "confirm-%s.json" % v["run_index"])
+            rc, _ = run_chunk(binary, ["run", "--seed", str(seed), "--start", str(v["run_index"]), "--count", "1"] + deep, out)
+            again = False
+            try:
+                with open(out) as f:
+                    again = bool(json.load(f)["violation_classes"])
+            except Exception:
+                pass
+            if not again:
+                unconfirmed.append(vclass)
+                continue
         k = V.match_known(known, "C18", vclass, v.get("history_kinds", []))
         if k is not None:
             known_hits[k.get("id", vclass)] = (k, path)
@@ -181,8 +199,8 @@ def check(tier, seed, runs, workers, secs):
             miri_violation = path
             vclasses["miri/interp"] = 1
 
-    wall = time.time() - t_start
-    sim_wall = max(1e-9, wall - build_s)
+    wall = time.time() - t_total
+    sim_wall = max(1e-9, time.time() - t_start)
     locked = {k: v for k, v in counters.items() if k.startswith("locked_rmw/")}
     ev = {
         "property_id": "C18",
@@ -207,6 +225,7 @@ def check(tier, seed, runs, workers, secs):
             "real_components": ["rbpf interpreter, x86-64 JIT compiler and emitted code, Cranelift translation, Cranelift code generator and emitted code; the CPU executes each monitored instruction natively (single step)"],
             "stub_components": ["memory model of the shared page: sequentially consistent interleaving at micro-operation granularity, only LOCKed (or implicitly locked) RMW instructions indivisible (Intel SDM vol.3 9.1); store-buffer reordering not modelled"],
             "worker_crashes": len(crashes),
+            "repo": V.repo_state(),
         },
         "assumptions": [
             "x86-64 only: an RMW instruction without LOCK is a load and a store that another processor can separate; LOCKed ones are indivisible",
@@ -236,6 +255,8 @@ def check(tier, seed, runs, workers, secs):
         V.log("VIOLATION property=C18 replay=%s" % miri_violation)
     if unlisted or miri_violation:
         return 1
+    if unconfirmed:
+        V.die("%d violation(s) could not be reproduced in a fresh process (%s): the verdict is withheld" % (len(unconfirmed), ", ".join(unconfirmed)))
     if crashes:
         for c in crashes[:3]:
             V.log("worker for runs %d..%d died (status %s)\n%s" % (c["start"], c["start"] + c["count"], c["rc"], c["output"]))
